@@ -80,7 +80,7 @@ func cmdManifest() int {
 		}},
 		"checks":         checks,
 		"not_applicable": nas,
-		"notes": "Technique family: static analysis only. Every check re-loads and re-type-checks /repo's working tree on each run. Exit 0 = all obligations discharged (or listed in known_findings.json as open findings, printed as KNOWN-FINDING lines); exit 1 + VIOLATION line = an obligation failed; exit 2 + UNDECIDED line = a subject anchor is missing or the tree does not type-check (never reported as a violation).",
+		"notes":          "Technique family: static analysis only. Every check re-loads and re-type-checks /repo's working tree on each run. Exit 0 = all obligations discharged (or listed in known_findings.json as open findings, printed as KNOWN-FINDING lines); exit 1 + VIOLATION line = an obligation failed; exit 2 + UNDECIDED line = a subject anchor is missing or the tree does not type-check (never reported as a violation).",
 	}
 	b, _ := json.MarshalIndent(doc, "", " ")
 	fmt.Println(string(b))
